@@ -50,18 +50,20 @@ structure Ops where
 
 /-- an id token: `7` (canonical spelling), `7u` (upper-case spelling of the same id) or `7p` (only the leading
 hex letter upper-cased: a spelling that the trie resolves to the SAME leaf, since children are addressed
-case-insensitively; `transferAmount` refuses it like every other non-lower-case recipient). -/
-def parseId (w : String) : Option (Nat × Bool) :=
-  if w.endsWith "u" || w.endsWith "p" then ((w.dropEnd 1).toString.toNat?).map (fun n => (n, false))
-  else (w.toNat?).map (fun n => (n, true))
+case-insensitively — reads see the account's balance; `transferAmount` refuses it like every other non-lower-case
+recipient). The harness only writes `p` when such a spelling exists (first digit a letter, trie root branching). -/
+def parseId (w : String) : Option (Nat × Bool × Bool) :=
+  if w.endsWith "u" then ((w.dropEnd 1).toString.toNat?).map (fun n => (n, false, false))
+  else if w.endsWith "p" then ((w.dropEnd 1).toString.toNat?).map (fun n => (n, false, true))
+  else (w.toNat?).map (fun n => (n, true, false))
 
 def parseOp (o : Ops) (w : String) : Option Ops :=
   match w.splitOn "," with
   | ["t", a, b, c] => match a.toNat?, parseId b, c.toNat? with
-    | some a, some (b, cn), some c => some { o with tr := o.tr ++ [⟨a, b, c, cn⟩] }
+    | some a, some (b, cn, sl), some c => some { o with tr := o.tr ++ [⟨a, b, c, cn, sl⟩] }
     | _, _, _ => none
   | ["s", a, b, c] => match a.toNat?, parseId b, c.toNat? with
-    | some a, some (b, cn), some c => some { o with sg := o.sg ++ [⟨a, b, c, cn⟩] }
+    | some a, some (b, cn, sl), some c => some { o with sg := o.sg ++ [⟨a, b, c, cn, sl⟩] }
     | _, _, _ => none
   | ["w", k, v] => match k.toNat?, v.toNat? with
     | some k, some v => some { o with ws := o.ws ++ [.put k v] }
@@ -138,10 +140,10 @@ def step (d : DS) (ws : List String) : DS × String :=
     | none => (d, "bad-op")
   | ["txn", typ, sender, to, tv, value, fee, nonce, res] =>
     match parseTyp typ, sender.toNat?, parseId to, value.toNat?, fee.toNat?, nonce.toInt?, parseRes res with
-    | some typ, some sender, some (to, cn), some value, some fee, some nonce, some r =>
+    | some typ, some sender, some (to, cn, sl), some value, some fee, some nonce, some r =>
       if tv ≠ "0" ∧ tv ≠ "1" then (d, "bad-op") else
       if !d.alive then (d, "no-chain") else
-      let t : Txn := { sender, to, toValid := tv = "1", toCanon := cn, value, fee, nonce, typ }
+      let t : Txn := { sender, to, toValid := tv = "1", toCanon := cn, toSameLeaf := sl, value, fee, nonce, typ }
       let (s', st) := ZChain.Ledger.step d.feeOn d.st t r
       ({ d with st := s' }, showStatus st ++ " " ++ showState s')
     | _, _, _, _, _, _, _ => (d, "bad-op")
